@@ -64,9 +64,10 @@ P == CASE Profile = "c04q" ->
       [] Profile = "c08s" ->
             \* the same header name beside the includers and in a -I directory, included in BOTH forms by two
             \* translation units of one or two platforms: small enough to enumerate every scenario
-            [slots |-> <<<<"src", "h.h">>, <<"inc", "h.h">>>>,
+            \* (and a header that only -include brings in: two commands that differ in nothing else)
+            [slots |-> <<<<"src", "h.h">>, <<"inc", "h.h">>, <<"inc", "g.h">>>>,
              bodies |-> {"def"}, stmts |-> {"qh", "ah"}, maxmain |-> 1, nmains |-> 2,
-             idirs |-> {<<Iu("inc")>>}, forced |-> {<<>>}, nents |-> 2, plats |-> <<"p1", "p2">>]
+             idirs |-> {<<Iu("inc")>>}, forced |-> {<<>>, <<"g.h">>}, nents |-> 2, plats |-> <<"p1", "p2">>]
       [] Profile = "c08m" ->
             [slots |-> <<<<"inc", "h.h">>, <<"inc", "g.h">>>>,
              bodies |-> {"once", "guard", "testX", "defX", "undefX"}, stmts |-> {"qh", "qg", "testX", "defX"},
